@@ -333,10 +333,11 @@ func verifyAggregates(c *C18Case, elemsSpec []NumSpec, l at.List, st *Stats) (at
 			prodF, _ := exactProd.Float64()
 			gotSum, gotProd := l.Sum(), l.Prod()
 			if c.Class == "exact" {
-				if gotSum != sumF {
+				// exact class: every evaluation order gives the same float64, the sign of a zero result included
+				if math.Float64bits(gotSum) != math.Float64bits(sumF) {
 					return nil, errf("Sum = %v, the exact sum is %v on %s", gotSum, sumF, before.Tree.Show())
 				}
-				if gotProd != prodF {
+				if math.Float64bits(gotProd) != math.Float64bits(prodF) {
 					return nil, errf("Prod = %v, the exact product is %v on %s", gotProd, prodF, before.Tree.Show())
 				}
 			} else {
